@@ -14,7 +14,7 @@ RULE = ('cases: histories (4..40 steps) over up to 8 streams of injected DATA (f
 ASSUMPTIONS = ['local SETTINGS frames in this check change only INITIAL_WINDOW_SIZE and the handshake SETTINGS '
                'is acknowledged first, so per-key and per-frame acknowledgement coincide (C11 covers the rest)']
 TIERS = {'quick': {'cases': 4000, 'size': 400},
-         'thorough': {'cases': 150000, 'size': 600}}
+         'thorough': {'cases': 900000, 'size': 600}}
 
 
 def run_case(data):
